@@ -121,20 +121,23 @@ class Run:
         if text:
             self.sample(rule, text)
 
-    def fail(self, rule, key, message, site="", path=None, ledger=None):
+    def fail(self, rule, key, message, site="", path=None, ledger=None, alt_keys=()):
         """an obligation the rule could not discharge: audited exception, known finding or violation.
-        `key` is the semantic, line-free identity of the instance."""
+        `key` is the semantic, line-free identity of the instance. `alt_keys`: the same key under the functions that alone call the
+        site's function - an audited site that moved into a private helper of the audited function is still covered by that audit
+        (budgets are exact counts, so the unit it uses is the one the site freed in the caller; an additional site exceeds them)."""
         self.obligations += 1
         r = self.by_rule[rule]
         r["obligations"] += 1
         if ledger is not None:
-            e = self.ledger(ledger).allows(key)
-            if e is not None:
-                self.audited += 1
-                self.discharged += 1
-                r["audited"] += 1
-                r["discharged"] += 1
-                return "audited"
+            for k_ in (key,) + tuple(alt_keys):
+                e = self.ledger(ledger).allows(k_)
+                if e is not None:
+                    self.audited += 1
+                    self.discharged += 1
+                    r["audited"] += 1
+                    r["discharged"] += 1
+                    return "audited"
         for k in self.known:
             if k["rule"] == rule and k["key"] == key:
                 ident = (rule, key)
